@@ -32,16 +32,26 @@ MANIFEST = {
     "level_note": "sampled pairs; executor replaced by the ray stand-in",
 }
 VARIANTS = ["truth_only", "ukf_params", "policy", "sensor_set", "sensor_noise", "seed", "output_cadence", "split_calls", "schedule_reverse",
-            "schedule_random", "extra_target_static", "fewer_targets_static", "target_added_by_event", "target_removed_by_event", "filter_model", "maneuver_detection"]
+            "schedule_random", "exec_order_reverse", "exec_order_random", "extra_target_static", "extra_target_static", "fewer_targets_static", "target_added_by_event", "target_removed_by_event", "filter_model", "maneuver_detection"]
 
 
-def trajectory(cfg, nsteps, *, split=None, scheduler=None, base_seed=0):
+def trajectory(cfg, nsteps, **kw):
+    """Run in a forked child (pristine process state, like a fresh worker) and capture the truth trajectory."""
+    from .. import scenario_kit as sk
+
+    try:
+        return sk.run_isolated(_trajectory, cfg, nsteps, timeout=900.0, **kw)
+    except sk.IsolatedRunError as e:
+        return {}, f"IsolatedRunError: {e}"
+
+
+def _trajectory(cfg, nsteps, *, split=None, scheduler=None, base_seed=0, exec_order=None):
     """Run and capture {(agent_id, step): state bytes} for targets and sensors."""
     from .. import scenario_kit as sk
     from .. import shimray
 
     sk.init()
-    b = sk.build(cfg, scheduler=scheduler, base_seed=base_seed)
+    b = sk.build(cfg, scheduler=scheduler, base_seed=base_seed, exec_order=exec_order)
     traj = {}
     err = None
     try:
@@ -83,7 +93,7 @@ def make_pair(net, variant, rng):
     from .. import shimray
 
     model = net.get("truth_model", "two_body")
-    over = dict(model=model, filter_model="two_body")
+    over = dict(model=model, filter_model="two_body" if variant != "filter_model" else model)
     if model == "special_perturbations":
         over["geopotential"] = {"model": "egm96.txt", "degree": 4, "order": 4}
         over["perturbations"] = {"third_bodies": ["sun", "moon"], "solar_radiation_pressure": True, "general_relativity": True}
@@ -93,6 +103,16 @@ def make_pair(net, variant, rng):
     if net.get("station_keeping"):
         for t in base["engines"][0]["targets"]:
             t["platform"]["station_keeping"] = {"routines": ["LEO"]}
+    # shared augmentations (identical in both runs of the pair): a space-based sensor and a target added by an event,
+    # i.e. agents that are built *after* the estimates / after construction
+    if net.get("space_sensor"):
+        rs, vs = sk.circ_state(7300.0, 63.0, 200.0, 10.0)
+        base["engines"][0]["sensors"].append(sk.space_sensor_cfg(29500, rs, vs, kind="optical" if net["policy"] != "AllVisibleDecision" else "adv_radar"))
+    if net.get("shared_addition"):
+        r2, v2 = sk.circ_state(7900.0, 44.0, 80.0, 150.0)
+        start0 = datetime.fromisoformat(net["start"])
+        base["events"].append({"scope": "scenario_step", "scope_instance_id": 0, "start_time": sk.iso(start0 + timedelta(seconds=net["step"] * net["shared_addition"])),
+                               "event_type": "target_addition", "tasking_engine_id": 1, "target_agent": sk.target_cfg(19500, r2, v2)})
     a, b = copy.deepcopy(base), copy.deepcopy(base)
     ka, kb = {}, {}
     n = net["nsteps"]
@@ -124,9 +144,15 @@ def make_pair(net, variant, rng):
         kb["scheduler"] = shimray.make_sched_script(None, default="reverse")
     elif variant == "schedule_random":
         kb["scheduler"] = shimray.make_sched_script(None, default="random", seed=rng.randrange(1 << 30))
+    elif variant == "exec_order_reverse":
+        kb["exec_order"] = shimray.exec_reverse
+    elif variant == "exec_order_random":
+        kb["exec_order"] = shimray.make_exec_random(rng.randrange(1 << 30))
+        kb["scheduler"] = shimray.make_sched_script(None, default="random", seed=rng.randrange(1 << 30))
     elif variant == "extra_target_static":
         r, v = sk.circ_state(8100.0, 77.0, 12.0, 222.0)
-        b["engines"][0]["targets"].append(sk.target_cfg(19001, r, v))
+        # first or last in the engine's list: jobs run (and touch any process-wide state) in that order
+        b["engines"][0]["targets"].insert(rng.choice([0, len(b["engines"][0]["targets"])]), sk.target_cfg(19001, r, v))
     elif variant == "fewer_targets_static":
         if len(b["engines"][0]["targets"]) > 1:
             b["engines"][0]["targets"].pop(rng.randrange(len(b["engines"][0]["targets"])))
@@ -234,6 +260,11 @@ def run(ctx):
             net2["nsteps"] = 3
             real_ray_pair(ctx, net2)
         variant = VARIANTS[(i * ctx.nshards + ctx.shard) % len(VARIANTS)] if ctx.quick else rng.choice(VARIANTS)
+        if variant == "filter_model":
+            # agents built after the estimates (spacecraft-hosted sensors, agents added by events) are the ones that
+            # could inherit filter settings: make sure this variant always has some
+            net["space_sensor"] = True
+            net["shared_addition"] = rng.randrange(1, net["nsteps"] + 1)
         seed = rng.randrange(1 << 30)
         ok = eval_pair(ctx, net, variant, seed)
         ctx.count("variant_" + variant)
